@@ -18,6 +18,11 @@ unraisable-hook reports, PyErr_Occurred() after the call.  B3: the function type
 (cython.typeof) must equal the model's (exception value, check); the pointer assignments Cython
 accepts must be protocol-compatible according to the model.
 P = the documented rule table written independently in lib_excspec.doc_rule / cpp_doc_rule.
+Typed numeric layer (WTypes of the cfg): the C integer types of every width / signedness and float as
+return types; literals are converted to the return type in the model (wrap-around, rounding), the
+caller's test is evaluated under the C promotion rules.  Those cases are built in modules `<kind>_w`.
+ExcSpec_nocast.cfg (the caller compares with the unconverted literal) must VIOLATE ImplAgrees:
+the model-side demonstration that the invariants see the conversion.
 """
 import collections
 import concurrent.futures
@@ -44,10 +49,11 @@ def body_class(c):
         return "raise"
     if c["body"] == "fall":
         return "fall"
-    v = c["body"]
-    if c["sv"] != "none" and v == c["sv"]:
+    v, rt = c["body"], c["rt"]
+    if c["sv"] != "none" and L.pconv(rt, v) == L.pconv(rt, c["sv"]):
         return "declared-sentinel"
-    if v == {"int": "-1", "double": "-1.0", "ptr": "NULL"}.get(c["rt"]):
+    implicit = "-1" if L.is_int(rt) else {"double": "-1.0", "float": "-1.0", "ptr": "NULL"}.get(rt)
+    if implicit is not None and L.pconv(rt, v) == L.pconv(rt, implicit):
         return "implicit-sentinel"
     if v == L.ZERO[c["rt"]]:
         return "zero"
@@ -71,7 +77,12 @@ def parse_fact(rt, s):
         if ev == "NAN":
             ev = "nan"
         elif ev != "NULL":
-            ev = repr(float(ev)) if rt == "double" else str(int(float(ev)))
+            if rt in L.FLT:
+                ev = repr(float(ev))
+            elif re.match(r"^-?(0[xX][0-9a-fA-F]+|\d+)[uUlL]*$", ev):      # -1L, -1LL, 0xFF, ...
+                ev = str(int(re.sub(r"[uUlL]+$", "", ev), 0))
+            else:
+                ev = str(int(float(ev)))
         return (ev, m.group(1) == "except?")
     if s.endswith("noexcept"):
         return ("none", False)
@@ -112,11 +123,18 @@ def run(tier, seed):
 
     # ---- model checking (both specs concurrently; -coverage for the vacuity guard)
     cfg = "ExcSpec" if tier == "quick" else "ExcSpec_thorough"
-    with concurrent.futures.ThreadPoolExecutor(2) as ex:
+    with concurrent.futures.ThreadPoolExecutor(3) as ex:
         f1 = ex.submit(core.tlc_or_die, "ExcSpec", cfg=cfg, timeout=1200, coverage=True, workers=4)
         f2 = ex.submit(core.tlc_or_die, "ExcSpecCpp", cfg="ExcSpecCpp", timeout=1200, coverage=True, workers=4)
-        r1, r2 = f1.result(), f2.result()
-    cov["tlc"] = [dict(r1.summary(), config=cfg), dict(r2.summary(), config="ExcSpecCpp")]
+        # sensitivity of the model: with the caller comparing against the unconverted literal (SentCast = "none")
+        # TLC must find the lost exception / fabricated value itself
+        f3 = ex.submit(core.tlc, "ExcSpec", cfg="ExcSpec_nocast", timeout=1200, workers=2, deadlock=False)
+        r1, r2, r3 = f1.result(), f2.result(), f3.result()
+    if r3.ok or r3.violation != "ImplAgrees":
+        sys.stderr.write(r3.out[-3000:])
+        core.die("ExcSpec_nocast: expected a violation of ImplAgrees, got %r" % (r3.violation or "no error",))
+    cov["tlc"] = [dict(r1.summary(), config=cfg), dict(r2.summary(), config="ExcSpecCpp"),
+                  dict(r3.summary(), config="ExcSpec_nocast", expected="violation of ImplAgrees", violated=r3.violation)]
     cases, cpp_cases = r1.printed, r2.printed
     # vacuity guard (model only)
     for r, acts in ((r1, ("Body", "CalleeExit", "CallerCheck", "Deliver")),
@@ -128,15 +146,37 @@ def run(tier, seed):
     for need in (("val", 0, False), ("exc", 0, False), ("val", 1, False), ("anyexc", 0, True)):
         if classes[need] == 0:
             core.die("vacuous model: no case of class %r" % (need,))
-    if len(cases) < 2500 or len(cpp_cases) < 500:
+    if len(cases) < 4500 or len(cpp_cases) < 500:
         core.die("published %d / %d cases" % (len(cases), len(cpp_cases)))
+    # typed numeric layer: every class of conversion must occur among the published cases
+    wcls = collections.Counter()
+    for c in cases:
+        rt = c["rt"]
+        if rt in L.BASE_RT:
+            continue
+        wcls["typed"] += 1
+        if c["sv"] != "none" and str(L.pconv(rt, c["sv"])) != c["sv"]:
+            wcls["declared-value-changed-by-conversion"] += 1
+            if c["body"] == "raise":
+                wcls["raise-with-converted-declared-value"] += 1
+            elif c["body"] not in ("fall", c["sv"]) and L.pconv(rt, c["body"]) == L.pconv(rt, c["sv"]):
+                wcls["return-of-the-converted-declared-value"] += 1
+        if c["ev"] != "none" and c["sv"] == "none" and str(L.pconv(rt, c["ev"])) != c["ev"] and c["body"] == "raise":
+            wcls["raise-with-converted-implicit-value"] += 1
+        if L.is_int(rt) and L.INTINFO[rt][1] < 32 and c["body"] == "raise":
+            wcls["raise-narrow-type"] += 1
+    for need in ("typed", "declared-value-changed-by-conversion", "raise-with-converted-declared-value",
+                 "return-of-the-converted-declared-value", "raise-with-converted-implicit-value", "raise-narrow-type"):
+        if wcls[need] == 0:
+            core.die("vacuous model: no typed case of class %r" % need)
+    cov["typed_case_classes"] = dict(wcls)
     cov["action_coverage"] = {"ExcSpec": {k: v[0] for k, v in r1.coverage.items()}, "ExcSpecCpp": {k: v[0] for k, v in r2.coverage.items()}}
     cov["case_classes"] = {"%s/hooks=%d/hazard=%s" % k: v for k, v in classes.items()}
 
     # ---- S vs P
     for c in cases:
         p = L.doc_rule(dict(c, spec="noexc" if (c["lg"] and c["spec"] == "dflt") else c["spec"]))
-        if p != (c["k"], c["v"], c["hooks"]):
+        if p != (c["k"], L.decode(c["rt"], c["v"]) if c["k"] == "val" else c["v"], c["hooks"]):
             rep.spec_drift("ExcSpec.Ref vs documented rule table", {"case": c, "python": p})
     if set(L.CPP_CLASSES) != {c["fb"] for c in cpp_cases} - {"ret", "pyerr"}:
         core.die("class list of ExcSpecCpp and lib_excspec differ")
@@ -204,7 +244,7 @@ def run(tier, seed):
         mods = collections.OrderedDict()
         for c in cases:
             if not is_cross(c) and executed(c):
-                mods.setdefault(c["kind"] + ("_lg" if c["lg"] else ""), []).append(c)
+                mods.setdefault(c["kind"] + ("" if c["rt"] in L.BASE_RT else "_w") + ("_lg" if c["lg"] else ""), []).append(c)
         jobs = submit(ex, mods)
         cpp_src, cpp_map = L.render_cpp(cpp_cases)
         cpp_jobs = []
@@ -335,7 +375,8 @@ def run(tier, seed):
         "misuse_cells_left_to_the_thorough_tier": n_misuse_skipped,
         "function_types_compared_with_model": facts_checked, "modules": sorted(modules), "configs": [c for c, _ in configs],
         "phase_s": t_phase, "module_start_build_run_s": t_mod,
-        "rule": "every state of ExcSpec (kind x specification x return type x declared value x body x caller context x pointer type"
+        "rule": "every state of ExcSpec (kind x specification x return type [incl. the C integer types of every width/signedness and float] x "
+                "declared value x body x caller context x pointer type"
                 " [x legacy_implicit_noexcept in thorough]) and of ExcSpecCpp (declaration x thrown class x return type x context) is one "
                 "call on compiled code; non-trivial = an exception, an unraisable report, or a returned value that coincides with a "
                 "declared/implicit sentinel or the zero default",
@@ -346,6 +387,8 @@ def run(tier, seed):
     core.write_evidence(PROP, tier, seed, "model_checking", cov, time.time() - t0,
                         assumptions=["values are tags: four ints, four doubles (incl. NaN), two pointers, two structs; the model treats a value only "
                                      "through equality with the exception value",
+                                     "typed integer/float return types: LP64, two's complement, 8-bit char, 16-bit short, IEEE single precision "
+                                     "(model: spec/ExcSpec.tla IntInfo; oracle: lib_excspec.pconv)",
                                      "a struct result after falling off the end / after a noexcept failure is unspecified (not compared)",
                                      "C-context callers are cdef functions declared `except *` of the same return type",
                                      "exception TYPE is compared, not the message or traceback",
